@@ -60,7 +60,8 @@ Inductive event :=
   | EUnlock (ok : bool)
   | ECall (q : hreq) (code : Z)
   | EInner (c : icall) (status : Z)
-  | ERet (o : op) (status : Z).
+  | ERet (o : op) (status : Z)
+  | EPop (ci : nat) (t : ctype).     (* ghost: the event machine took this event from the queue *)
 
 (* ---------- pure helpers on the object state ---------- *)
 
@@ -670,46 +671,9 @@ Definition parse_write_args (w : world) : world * Z :=
       match nth_error (mem s) (v_slot v) with
       | None => busy (upd_st set_fault_flag w)
       | Some data =>
-        let ro := vaccess_beq (v_access v) RO in
         let rest := skipn (k_position (k s)) (cbuf s) in
         (* decode + validate: (status, storage, write_size, consumed) *)
-        let '(pst, data', wsz, n) :=
-          match v_type v with
-          | VInt =>
-            let '(pst, val, n) := parse_int rest in
-            match pst with
-            | SOk _ => match validate_int ro (v_size v) val data with
-                       | VFault => (SFault, data, 0, n)
-                       | VErr => (SErr, data, 0, n)
-                       | VOk d ws => (pst, d, ws, n)
-                       end
-            | _ => (pst, data, 0, n)
-            end
-          | VUint =>
-            let '(pst, val, n) := parse_uint rest in
-            match pst with
-            | SOk _ => match validate_uint ro (v_size v) val data with
-                       | VFault => (SFault, data, 0, n)
-                       | VErr => (SErr, data, 0, n)
-                       | VOk d ws => (pst, d, ws, n)
-                       end
-            | _ => (pst, data, 0, n)
-            end
-          | VHex =>
-            let '(pst, val, n) := parse_hex rest in
-            match pst with
-            | SOk _ => match validate_uint ro (v_size v) val data with
-                       | VFault => (SFault, data, 0, n)
-                       | VErr => (SErr, data, 0, n)
-                       | VOk d ws => (pst, d, ws, n)
-                       end
-            | _ => (pst, data, 0, n)
-            end
-          | VBufHex =>
-            let r := parse_bufhex rest data ro (v_size v) in (b_st r, b_data r, b_wsize r, b_n r)
-          | VBufStr =>
-            let r := parse_bufstr rest data ro (v_size v) in (b_st r, b_data r, b_wsize r, b_n r)
-          end in
+        let '(pst, data', wsz, n) := decode_var v rest data in
         let s1 := s |> setk_position (k_position (k s) + n)
                     |> set_mem (upd (mem s) (v_slot v) data') in
         match pst with
@@ -913,7 +877,12 @@ Definition check_unsolicited_buffers (s : state) : state :=
 Definition unsolicited_events_service (w : world) : world * Z :=
   match u_state (u (st w)) with
   | US_IDLE =>
-    if negb (ring_empty (st w)) then busy (upd_st check_unsolicited_buffers w)
+    if negb (ring_empty (st w)) then
+      let w1 := match ring_items (st w) with
+                | it :: _ => logw (EPop (fst it) (snd it)) w
+                | [] => w
+                end in
+      busy (upd_st check_unsolicited_buffers w1)
     else (w, ST_OK)
   | US_FORMAT_READ_ARGS => format_read_args UNSOL w
   | US_FORMAT_TEST_ARGS => busy (upd_st (format_test_args UNSOL) w)
